@@ -1564,12 +1564,13 @@ func (p *Parser) parseIdentifierArrowFunc(v *Var) (arrowFunc *ArrowFunc) {
 	prevAwait, prevYield := p.await, p.yield
 	p.await, p.yield = false, false
 
-	if 1 < v.Uses {
+	if n := len(p.scope.Parent.Undeclared); v.Uses != 1 || n == 0 || p.scope.Parent.Undeclared[n-1] != v {
+		// also when the 16-bit use counter has wrapped around to one for a variable that was seen before
 		v.Uses--
 		v, _ = p.scope.Declare(ArgumentDecl, parse.Copy(v.Data)) // cannot fail
 	} else {
 		// if v.Uses==1 it must be undeclared and be the last added
-		p.scope.Parent.Undeclared = p.scope.Parent.Undeclared[:len(p.scope.Parent.Undeclared)-1]
+		p.scope.Parent.Undeclared = p.scope.Parent.Undeclared[:n-1]
 		v.Decl = ArgumentDecl
 		p.scope.Declared = append(p.scope.Declared, v)
 	}
